@@ -173,7 +173,17 @@ impl CrashLens {
         drop(c);
         // the workload ends with a GRACEFUL shutdown (what main.rs does on SIGTERM: System::shutdown, then the process exits):
         // the directory it leaves is one more image, of kind "graceful", which must hold everything that was accepted (C03)
+        // (the background persister's next write is delayed a little - guarded schedule point -, so that a shutdown that does
+        //  not wait for it loses the batch every time instead of only on a loaded machine)
+        server::verif::set_point_hook(Some(Arc::new(|name, _| {
+            Box::pin(async move {
+                if name == "persister.write" {
+                    tokio::time::sleep(std::time::Duration::from_millis(30)).await;
+                }
+            })
+        })));
         let graceful_res = srv::stop(inc, true);
+        server::verif::set_point_hook(None);
         {
             let mut imgs = images.lock().unwrap();
             let n = imgs.len();
